@@ -1156,6 +1156,7 @@ pub fn run_scenario(sc: &Value) -> (Vec<Value>, Option<String>) {
         c.zero_delay_run = 0;
         c.epoch_ns = c.now_ns;
         c.drift_ns = sc["drift_ns"].as_i64().unwrap_or(0);
+        c.strip_domain_id = sc["strip_domain_id"].as_bool().unwrap_or(false);
     }
     g.sim.core.log(json!({"ev": "Reset", "name": sc["name"], "seed": sc["seed"], "frag": sc["frag"], "cfg": sc["cfg"]}));
     let domain = sc["domain"].as_i64().unwrap_or(0) as i32;
